@@ -260,7 +260,7 @@ func init() {
 		Assumptions: []string{"EncodeSW 'reports success' is read strictly: the returned error is nil (the accumulated error of the slice writer is not consulted)", "objects with a lazily written mdat payload are excluded: their Size() includes the payload that Encode does not write, by documented design (C08)",
 			"Size() beforehand is compared only for decoded objects without trun optimisation"},
 		Real: realLib, Stub: stubIO, RealNoFault: realNoFault,
-		Runs:       map[string]int{"quick": 60000, "thorough": 3000000},
+		Runs:       map[string]int{"quick": 300000, "thorough": 15000000},
 		Setup:      setupObjects,
 		Run:        c02Run,
 		WantFaults: []string{"write-eio", "write-full", "slice-short"},
